@@ -4,6 +4,8 @@ from __future__ import annotations
 
 import itertools
 
+import numpy as np
+
 from hypothesis import strategies as st
 
 from vf.core import Sub
@@ -99,6 +101,7 @@ def check(spec, ctx):
     else:
         edges = [tuple(e) for e in spec["edges"]]
     eset = {frozenset(e) for e in edges}
+    ret_kind = (spec.get("mask", 0) + len(spec.get("edges", []))) % 3
     events = list(_events(n))
     for i, j in spec.get("copies", []):
         # position i holds a separate object that compares equal to the event at position j (e.g. loaded twice)
@@ -111,7 +114,9 @@ def check(spec, ctx):
         calls.append((ia, ib))
         if ia is None or ib is None:
             return False
-        return frozenset((ia, ib)) in eset
+        ans = frozenset((ia, ib)) in eset
+        # callers' comparison functions return whatever their arithmetic returns: bool, numpy.bool_ or 0/1
+        return {0: ans, 1: np.bool_(ans), 2: int(ans)}[ret_kind]
 
     exp = components(n, edges)
     deg = {}
